@@ -54,9 +54,19 @@ class InProcTransport(BaseTransport, scheme="c12inproc"):
         self.n = 0
         self.wire: list[tuple[str, str | None]] = []
 
+    _live: dict[str, "InProcTransport"] = {}
+
     @classmethod
     async def connect(cls, target: str | TargetURI, timeout: float | None = None) -> Self:
-        raise ConnectionRefusedError("in-process transport cannot reconnect")
+        # reconnect(): a new transport object to the SAME peer; the ECU behind it is not told (a bus transport
+        # like ISO-TP has no connection the ECU could notice), so it keeps its session and security level
+        old = cls._live.get(str(target))
+        if old is None:
+            raise ConnectionRefusedError("in-process transport: nothing to reconnect to")
+        new = cls(old.peer, str(target))
+        new.n, new.wire, new.yielding = old.n, old.wire, old.yielding
+        cls._live[str(target)] = new
+        return new  # type: ignore[return-value]
 
     async def close(self) -> None:
         self.is_closed = True
@@ -193,6 +203,7 @@ async def record_run(db: Path, run: dict[str, Any]) -> dict[str, Any]:
     peer = make_peer(run["peer"])
     await peer.setup()
     tr = InProcTransport(peer, run["url"])
+    InProcTransport._live[str(tr.target)] = tr
     ecu = ECU(tr, timeout=0.05, max_retry=0)
     h = DBHandler(db)
     await h.connect()
@@ -219,8 +230,11 @@ async def record_run(db: Path, run: dict[str, Any]) -> dict[str, Any]:
             pinger = asyncio.create_task(ping())
         last_seed: bytes | None = None
         oob = set(run.get("oob", []))
+        reconn = set(run.get("reconn", []))
         outcomes = []
         for i, step in enumerate(run["steps"]):
+            if i in reconn:
+                await ecu.reconnect()  # e.g. what a scanner does after a transport hiccup; the ECU is untouched
             if i in oob:
                 ecu.state.reset()  # what ECU.power_cycle() does to the client-side state
             try:
@@ -238,6 +252,7 @@ async def record_run(db: Path, run: dict[str, Any]) -> dict[str, Any]:
             except BaseException:  # noqa: BLE001
                 pass
     finally:
+        InProcTransport._live.pop(str(tr.target), None)
         await h.disconnect()
     return {"scan_run": scan_run, "wire": tr.wire, "outcomes": outcomes}
 
